@@ -82,7 +82,7 @@ def type_name(I, v):
         return v.ntc.name
     if isinstance(v, tuple):
         return 'tuple'
-    if isinstance(v, (PList, PBytearray, PBytes, SSeq)):
+    if isinstance(v, (PList, PBytearray, PBytes, SSeq, SView)):
         return v.kind
     if isinstance(v, PDict):
         return 'dict'
@@ -158,13 +158,13 @@ def isinstance_one(I, v, c):
         if n == 'str':
             return isinstance(v, (str, PStr))
         if n == 'bytes':
-            return isinstance(v, PBytes) or (isinstance(v, SSeq) and v.kind == 'bytes')
+            return isinstance(v, PBytes) or (isinstance(v, (SSeq, SView)) and v.kind == 'bytes')
         if n == 'bytearray':
-            return isinstance(v, PBytearray) or (isinstance(v, SSeq) and v.kind == 'bytearray')
+            return isinstance(v, PBytearray) or (isinstance(v, (SSeq, SView)) and v.kind == 'bytearray')
         if n == 'list':
-            return isinstance(v, PList) or (isinstance(v, SSeq) and v.kind == 'list')
+            return isinstance(v, PList) or (isinstance(v, (SSeq, SView)) and v.kind == 'list')
         if n == 'tuple':
-            return isinstance(v, tuple)
+            return isinstance(v, tuple) or (isinstance(v, SView) and v.kind == 'tuple')
         if n == 'dict':
             return isinstance(v, PDict)
         if n == 'set':
@@ -386,10 +386,22 @@ def int_to_str(I, v):
     raise OutOfSubset('str() of a symbolic int')
 
 
+def _review(v, kind):
+    r = SView(v.arr, v.off, v.ln, kind)
+    r.byte_range = _b.getattr(v, 'byte_range', False) or v.kind in ('bytes', 'bytearray')
+    return r
+
+
 @_type_ctor('bytes')
 def _bytes(I, a, k):
     if not a:
         return PBytes([])
+    if isinstance(a[0], SView):
+        if not (a[0].kind in ('bytes', 'bytearray') or _b.getattr(a[0], 'byte_range', False)):
+            raise OutOfSubset('bytes() of a symbolic-length sequence without the byte range invariant')
+        return _review(a[0], 'bytes')
+    if isinstance(a[0], SSeq):
+        return SSeq(a[0].t, 'bytes')
     return PBytes(bytes_items(I, a[0], a[1:] , k))
 
 
@@ -398,6 +410,10 @@ def _bytearray(I, a, k):
     if not a:
         return PBytearray([])
     v = a[0]
+    if isinstance(v, SView):
+        if not (v.kind in ('bytes', 'bytearray') or _b.getattr(v, 'byte_range', False)):
+            raise OutOfSubset('bytearray() of a symbolic-length sequence without the byte range invariant')
+        return _review(v, 'bytearray')
     if isinstance(v, SSeq):
         return SSeq(v.t, 'bytearray')
     return PBytearray(bytes_items(I, v, a[1:], k))
@@ -427,6 +443,8 @@ def bytes_items(I, v, rest, k):
 def _list(I, a, k):
     if not a:
         return PList([])
+    if isinstance(a[0], SView):
+        return _review(a[0], 'list')
     if isinstance(a[0], SSeq):
         return SSeq(a[0].t, 'list')
     return PList(I.iterate_all(a[0]))
@@ -436,6 +454,8 @@ def _list(I, a, k):
 def _tuple(I, a, k):
     if not a:
         return ()
+    if isinstance(a[0], SView):
+        return _review(a[0], 'tuple')
     if isinstance(a[0], SSeq):
         return SSeq(a[0].t, 'tuple')
     return tuple(I.iterate_all(a[0]))
